@@ -119,6 +119,59 @@ impl RemoteClient {
     }
 }
 
+/// Verification hooks (compiled only with `--cfg xet_verif`): a per-thread simulated blob transport used by
+/// `download_range`, and a constructor that takes the HTTP client and the chunk cache from the caller.
+#[cfg(xet_verif)]
+pub mod verif_transport {
+    use std::cell::RefCell;
+    use std::pin::Pin;
+    use std::sync::Arc;
+
+    use cas_types::CASReconstructionFetchInfo;
+    use futures::future::BoxFuture;
+    use futures::Stream;
+
+    pub type ByteStream = Pin<Box<dyn Stream<Item = std::io::Result<bytes::Bytes>> + Send>>;
+
+    pub trait Transport: Send + Sync {
+        fn fetch(&self, fetch_term: CASReconstructionFetchInfo) -> BoxFuture<'static, crate::error::Result<ByteStream>>;
+    }
+
+    thread_local! {
+        static TRANSPORT: RefCell<Option<Arc<dyn Transport>>> = const { RefCell::new(None) };
+    }
+
+    pub fn install(t: Option<Arc<dyn Transport>>) -> Option<Arc<dyn Transport>> {
+        TRANSPORT.with(|c| std::mem::replace(&mut *c.borrow_mut(), t))
+    }
+
+    pub fn current() -> Option<Arc<dyn Transport>> {
+        TRANSPORT.with(|c| c.borrow().clone())
+    }
+}
+
+#[cfg(xet_verif)]
+impl RemoteClient {
+    pub fn verif_new(
+        threadpool: Arc<ThreadPool>,
+        http_client: Arc<ClientWithMiddleware>,
+        chunk_cache: Option<Arc<dyn ChunkCache>>,
+    ) -> Self {
+        Self {
+            endpoint: CAS_ENDPOINT.to_string(),
+            compression: None,
+            dry_run: false,
+            authenticated_http_client: http_client.clone(),
+            conservative_authenticated_http_client: http_client.clone(),
+            http_client,
+            chunk_cache,
+            threadpool,
+            range_download_single_flight: Arc::new(Group::new()),
+            shard_cache_directory: PathBuf::new(),
+        }
+    }
+}
+
 #[async_trait]
 impl UploadClient for RemoteClient {
     async fn put(
@@ -606,6 +659,14 @@ async fn download_range(
     hash: HexMerkleHash,
 ) -> Result<(Vec<u8>, Vec<u32>)> {
     trace!("{hash},{},{}", fetch_term.range.start, fetch_term.range.end);
+
+    // Verification hook: a simulated blob transport, if installed, supplies the response byte stream.
+    #[cfg(xet_verif)]
+    if let Some(transport) = verif_transport::current() {
+        let stream = transport.fetch(fetch_term.clone()).await?;
+        let (data, chunk_byte_indices) = cas_object::deserialize_async::deserialize_chunks_from_stream(stream).await?;
+        return Ok((data, chunk_byte_indices));
+    }
 
     let url = Url::parse(fetch_term.url.as_str())?;
     let response = http_client
